@@ -108,6 +108,20 @@ pub fn check_reflect(ns: &'static Namespace<'static>, g: &Graph, rec: &Dict, pro
     if let Some(m) = cmp_sets("reflect", &format!("{:?}", rec.keys().collect::<Vec<_>>()), got, want.clone()) {
         out.push(m);
     }
+    // entity type: when exactly one reflected def fits 'entity' it is the record's entity type; when none does, there is none
+    if g.defined("entity") {
+        let ents: Vec<&String> = want.iter().filter(|d| g.fits(d, "entity")).collect();
+        // the most specific ones: not a supertype of another reflected entity def
+        let specific: Vec<&&String> = ents.iter().filter(|d| !ents.iter().any(|o| o != *d && g.inheritance(o).contains(**d))).collect();
+        let got_name = refl.entity_type.def_name().clone();
+        if ents.is_empty() {
+            if !refl.entity_type.is_empty() {
+                out.push(Mismatch { query: "entity_type".into(), detail: format!("record {:?} has entity type {got_name:?} although no reflected def fits entity", rec.keys().collect::<Vec<_>>()) });
+            }
+        } else if specific.len() == 1 && got_name != ***specific[0] {
+            out.push(Mismatch { query: "entity_type".into(), detail: format!("record {:?}: entity type {got_name:?}, the only most specific reflected entity def is {:?}", rec.keys().collect::<Vec<_>>(), specific[0]) });
+        }
+    }
     // probes: the given symbols plus the record's own tag names (defined or not) and their conjunct spellings
     let mut all_probes: Vec<String> = probes.to_vec();
     all_probes.extend(rec.keys().cloned());
